@@ -232,7 +232,7 @@ def run(ctx):
         "read schedules are finite lists followed by maximal reads (a terminating run consumes finitely many events)",
         "usize is 64 bits; chunk_size >= 1; polynomial: the model covers every degree >= 8 (u64 truncation explicit); degree < 8 and the zero polynomial are outside the model and must be rejected by the code (checked on the real chunker with a timeout)",
         "theorem hypotheses params_ok: avg a power of two, min <= avg <= max, 64 <= min, BUF_SIZE-1 <= min (the last two are forced by the proof; see findings)",
-        "size_hint only sizes the allocation (modelled, shown irrelevant)",
+        "size_hint only sizes the allocation (modelled, shown irrelevant; hints smaller and larger than the stream, incl. an announced end at a chunk boundary before the real end, are generated for both chunkers)",
     ]
     try:
         model = vlib.build_model("C06")
@@ -292,8 +292,14 @@ def run(ctx):
             n = min(n, maxlen)
             data = gen_stream(rng, rng.choice(["random", "zeros", "periodic"]), n, None, 0, 0, 0)
             for sk in rng.sample(SCHED_KINDS, nsch):
-                cases.append({"line": fline(size, rng.choice([0, n, 10 ** 9, max(n - 1, 0)]), gen_sched(rng, sk, n), data),
+                cases.append({"line": fline(size, rng.choice([0, n, 10 ** 9, max(n - 1, 0), n // 2, n // 3, max(n - size, 0), 1, size]), gen_sched(rng, sk, n), data),
                               "group": "F%d:%d" % (g, size), "fixed": size, "data": data, "sk": sk})
+            # the announced size (size_hint) ends before the stream does, at and off a chunk boundary
+            for h in (size, n // 2):
+                if 0 < h < n:
+                    sk = rng.choice(SCHED_KINDS)
+                    cases.append({"line": fline(size, h, gen_sched(rng, sk, n), data),
+                                  "group": "F%d:%d" % (g, size), "fixed": size, "data": data, "sk": sk})
             continue
         istiny = u < 0.30
         avg, mn, mx = rng.choice(tiny if istiny else good)
